@@ -517,6 +517,8 @@ class Exec:
                 if v.ty.kind == 'list': return SV(s.llen(st.heap, v), INT)
                 if v.ty == STR: return SV(s.str_len(v.t), INT)
                 raise Unsupported(f'len of {v.ty}')
+            if n == 'isinstance' and isinstance(e.args[1], ast.Attribute) and 'IsT' not in s.spec.ufuns and e.args[1].attr in s.p.classes:
+                e = ast.Call(func=e.func, args=[e.args[0], ast.copy_location(ast.Name(id=e.args[1].attr, ctx=ast.Load()), e.args[1])], keywords=[])      # module.Class
             if n == 'isinstance' and isinstance(e.args[1], ast.Attribute) and 'IsT' in s.spec.ufuns:
                 v = s.ev(st, e.args[0]); return SV(s.spec.ufuns['IsT'][0](v.t), BOOL)
             if n == 'isinstance' and isinstance(e.args[1], (ast.BinOp, ast.Tuple)):
@@ -534,7 +536,7 @@ class Exec:
             if n == 'isinstance' and isinstance(e.args[1], ast.Name) and e.args[1].id in ('str', 'int', 'bool'):
                 v = s.ev(st, e.args[0]); return SV(BoolVal(v.ty == {'str': STR, 'int': INT, 'bool': BOOL}[e.args[1].id]), BOOL)
             if n == 'isinstance':
-                v = s.ev(st, e.args[0]); c = e.args[1].id
+                v = s.ev(st, e.args[0]); c = e.args[1].id if isinstance(e.args[1], ast.Name) else e.args[1].attr
                 if c == 'list': return SV(BoolVal(v.ty.kind == 'list'), BOOL)
                 if v.ty.kind == 'ref' and c in s.p.classes and c in s.p.mro(v.ty.arg): return SV(v.t != 0, BOOL)
                 raise Unsupported(f'isinstance {c}')
